@@ -10,7 +10,8 @@ EXHAUSTIVE = {"quick": "all 700 datasets (3 elements, <=2 rankings) x 9 schemes 
 ASSUMPTIONS = ["'the unifying scheme' is read up to positive multiples (the library's documented notion of equivalent "
                "schemes, C19)"]
 SCHEMES = [ac.P_UNI1, ac.P_UNI5, ac.P_IND1, ac.P_PSE1, ac.P_EXT] + ac.multiples(ac.P_UNI1) + \
-          [([0, 4, 4, 0, 4, 4], [8, 8, 0, 8, 8, 0], 4),      # unifying B, doubled T: NOT the unifying scheme
+          [([0, 4, 0, 0, 4, 0], [0, 0, 0, 4, 4, 0], 4),      # ties are free: many rankings score 0
+           ([0, 4, 4, 0, 4, 4], [8, 8, 0, 8, 8, 0], 4),      # unifying B, doubled T: NOT the unifying scheme
            ([0, 4, 4, 0, 4, 4], [4, 4, 0, 4, 4, 4], 4)]
 
 
@@ -25,6 +26,9 @@ def stages(tier, rng, only=None):
     out.append(ac.stage("random", PID, lambda: ac.cases([ac.random_dataset(rng, 7, 6) for _ in range(n_rand)],
                                                         ["PickAPerm"], SCHEMES + ac.grid_sample(rng, 10)), _nt))
     out.append(ac.stage("reuse_after_mutation", PID, lambda: ac.reuse_mutate_cases(
+        grids.datasets(3, 2) + [ac.random_dataset(rng, 6, 5, nmin=2) for _ in range(n_rand // 2)], ["PickAPerm"],
+        SCHEMES, rng, flags=(1, 0)), _nt))
+    out.append(ac.stage("reuse_other_dataset", PID, lambda: ac.reuse_other_cases(
         grids.datasets(3, 2) + [ac.random_dataset(rng, 6, 5, nmin=2) for _ in range(n_rand // 2)], ["PickAPerm"],
         SCHEMES, rng, flags=(1, 0)), _nt))
     if tier == "thorough":
